@@ -430,3 +430,383 @@ Proof.
   - intros [[K n] v]. rewrite (in_jar_facts _ K n v W), live_n_spec, jlookup_fold.
     unfold jlookup at 1. simpl. destruct (latest fs (K, n)); tauto.
 Qed.
+
+(* ------------------------------------------------------------------------------------------ *)
+(* SimpleCookieJar.add is a sequence of single-fact stores *)
+
+Definition norm (s : stored) : nfact := (domain_key (st_dom s), st_name s, st_value s).
+
+Definition tagged (K : str) (ms : list morsel) : list nfact :=
+  map (fun m : morsel => (K, fst (fst m), snd (fst m))) ms.
+
+Definition upd (c : cookie) (m : morsel) : cookie := alist_set (fst (fst m)) (snd (fst m)) c.
+
+Lemma cookie_update_fold : forall ms c, cookie_update c ms = fold_left upd ms c.
+Proof. induction ms as [|[[n v] d] r IH]; simpl; intro c; [reflexivity | apply IH]. Qed.
+
+Lemma cookie_of_put_same : forall j K n v,
+  cookie_of K (jar_put j (K, n, v)) = alist_set n v (cookie_of K j).
+Proof.
+  intros. unfold jar_put. simpl. unfold cookie_of at 1. rewrite alist_get_set, str_eqb_refl.
+  reflexivity.
+Qed.
+
+Lemma fold_put_same_key : forall K ms m j,
+  fold_left jar_put (tagged K (m :: ms)) j = alist_set K (fold_left upd (m :: ms) (cookie_of K j)) j.
+Proof.
+  induction ms as [|m' ms IH]; intros m j.
+  - reflexivity.
+  - change (fold_left jar_put (tagged K (m :: m' :: ms)) j)
+      with (fold_left jar_put (tagged K (m' :: ms)) (jar_put j (K, fst (fst m), snd (fst m)))).
+    rewrite IH, cookie_of_put_same. unfold jar_put. simpl fst. simpl snd.
+    rewrite alist_set_set. reflexivity.
+Qed.
+
+Lemma domain_key_norm : forall d, domain_key d = 46 :: dom_norm d.
+Proof.
+  intro d. unfold domain_key, dom_norm, s_dot. destruct d as [|c d]; [reflexivity|].
+  change (starts_with [46] (c :: d)) with ((46 =? c) && true).
+  change (lower (c :: d)) with (lower1 c :: lower d).
+  destruct (Z.eqb_spec 46 c) as [E|E].
+  - subst c. reflexivity.
+  - change (lower ([46] ++ c :: d)) with (46 :: lower1 c :: lower d).
+    destruct (Z.eqb_spec (lower1 c) 46) as [E'|E']; [|reflexivity].
+    exfalso. unfold lower1 in E'. destruct ((65 <=? c) && (c <=? 90)) eqn:B.
+    + apply andb_true_iff in B. destruct B as [B1 B2]. apply Z.leb_le in B1. lia.
+    + congruence.
+Qed.
+
+Definition add_facts (all : list morsel) (m : morsel) : list nfact :=
+  match named_domain m with Some d => tagged (domain_key d) all | None => [] end.
+
+Lemma jar_add_one_facts : forall all j m, all <> [] ->
+  jar_add_one all j m = fold_left jar_put (add_facts all m) j.
+Proof.
+  intros all j [[n v] d] Hne. unfold jar_add_one, add_facts, named_domain. simpl snd.
+  destruct d as [[|c d]|]; try reflexivity. simpl truthy. cbv iota.
+  destruct all as [|m0 all]; [contradiction|].
+  rewrite fold_put_same_key, cookie_update_fold. f_equal.
+  unfold cookie_of. destruct (alist_get (domain_key (c :: d)) j) as [[|x c']|]; reflexivity.
+Qed.
+
+Lemma stored_by_norm : forall r, map norm (stored_by r) = flat_map (add_facts r) r.
+Proof.
+  intro r. unfold stored_by. rewrite map_flat_map. apply flat_map_ext. intro m.
+  unfold add_facts. destruct (named_domain m); [|reflexivity].
+  unfold tagged. rewrite map_map. reflexivity.
+Qed.
+
+Lemma jar_add_facts : forall r j, jar_add j r = fold_left jar_put (map norm (stored_by r)) j.
+Proof.
+  intros r j. rewrite stored_by_norm. unfold jar_add. destruct r as [|m0 r0] eqn:Er; [reflexivity|].
+  rewrite <- Er. assert (Hne : r <> []) by (rewrite Er; discriminate). clear Er.
+  generalize r at 2 4 as ms. intro ms. revert j.
+  induction ms as [|m ms IH]; intro j; [reflexivity|].
+  simpl. rewrite fold_left_app, <- jar_add_one_facts by exact Hne. apply IH.
+Qed.
+
+Lemma history_facts : forall h j,
+  fold_left jar_add h j = fold_left jar_put (map norm (stored_all h)) j.
+Proof.
+  induction h as [|r h IH]; intro j; [reflexivity|].
+  unfold stored_all. simpl. rewrite map_app, fold_left_app, <- jar_add_facts. apply IH.
+Qed.
+
+(* ------------------------------------------------------------------------------------------ *)
+(* latest-wins and scoping agree with the specification's *)
+
+Lemma slot_norm : forall a b, key_eqb (fst (norm a)) (fst (norm b)) = same_slot a b.
+Proof.
+  intros a b. unfold norm, key_eqb, same_slot, same_domain. simpl fst. simpl snd.
+  rewrite !domain_key_norm. reflexivity.
+Qed.
+
+Lemma exists_slot_norm : forall f r,
+  existsb (fun x => key_eqb (fst (norm f)) (fst (norm x))) r = existsb (same_slot f) r.
+Proof.
+  intros f r. induction r as [|g r IHr]; [reflexivity|].
+  cbn [existsb]. rewrite slot_norm, IHr. reflexivity.
+Qed.
+
+Lemma live_norm : forall fs, live_n (map norm fs) = map norm (live fs).
+Proof.
+  induction fs as [|f r IH]; [reflexivity|].
+  cbn [map live live_n]. rewrite existsb_map, exists_slot_norm.
+  destruct (existsb (same_slot f) r); cbn [map]; rewrite IH; reflexivity.
+Qed.
+
+Lemma match_covers : forall d host, domain_match (lower host) (domain_key d) = covers d host.
+Proof.
+  intros d host. unfold domain_match, covers. rewrite domain_key_norm. simpl tl. apply orb_comm.
+Qed.
+
+Definition sel_proj (f : nfact) : str * str := (snd (fst f), snd f).
+
+Lemma jar_select_facts : forall j host,
+  jar_select j host =
+  map sel_proj (filter (fun f : nfact => domain_match (lower host) (fst (fst f))) (jar_facts j)).
+Proof.
+  intros j host. unfold jar_select, jar_facts. induction j as [|[K c] r IH]; [reflexivity|].
+  cbn [flat_map]. rewrite filter_app, map_app, IH. f_equal. cbn [fst snd].
+  destruct (domain_match (lower host) K) eqn:E.
+  - clear IH. induction c as [|[n v] c IHc]; [reflexivity|]. simpl. rewrite E. simpl.
+    unfold sel_proj at 1. simpl. f_equal. exact IHc.
+  - clear IH. induction c as [|[n v] c IHc]; [reflexivity|]. simpl. rewrite E. exact IHc.
+Qed.
+
+(* what is selected for a host is, up to order, what the specification sends *)
+Theorem select_perm : forall history host,
+  Permutation (jar_select (jar_of_history history) host)
+              (map (fun s => (st_name s, st_value s)) (sent history host)).
+Proof.
+  intros h host. unfold jar_of_history. rewrite history_facts, jar_select_facts.
+  set (P := fun f : nfact => domain_match (lower host) (fst (fst f))).
+  assert (E : map (fun s => (st_name s, st_value s)) (sent h host)
+              = map sel_proj (filter P (map norm (live (stored_all h))))).
+  { rewrite filter_map_comm, map_map. unfold sent. f_equal. apply filter_ext.
+    intro s. unfold P, norm. simpl. symmetry. apply match_covers. }
+  rewrite E. apply Permutation_map, Permutation_filter'.
+  rewrite <- live_norm. apply jar_facts_perm.
+Qed.
+
+(* ------------------------------------------------------------------------------------------ *)
+(* the header string *)
+
+Lemma fmt_truthy : forall kv, truthy (fmt_cookie kv) = true.
+Proof. intros [[|x n] v]; reflexivity. Qed.
+
+Lemma filter_none_id : forall l, (forall x, In x l -> truthy x = true) -> filter_none l = l.
+Proof.
+  induction l as [|x l IH]; intro H; [reflexivity|]. unfold filter_none in *. simpl.
+  rewrite (H x (or_introl eq_refl)). f_equal. apply IH. intros y Hy. apply H. right. exact Hy.
+Qed.
+
+Lemma sorted_fmt_truthy : forall l x, In x (sort_str (map fmt_cookie l)) -> truthy x = true.
+Proof.
+  intros l x H. apply (Permutation_in _ (sort_str_perm _)) in H. apply in_map_iff in H.
+  destruct H as [kv [<- _]]. apply fmt_truthy.
+Qed.
+
+(* jar_get is the sorted join of the selected entries *)
+Lemma jar_get_select : forall j host, host <> [] ->
+  jar_get j host = join s_semi_sp (sort_str (map fmt_cookie (jar_select j host))).
+Proof.
+  intros j host H. unfold jar_get. destruct host; [contradiction|]. simpl truthy. cbv iota.
+  rewrite filter_none_id; [reflexivity | apply sorted_fmt_truthy].
+Qed.
+
+Lemma jar_get_empty_host : forall j, jar_get j [] = [].
+Proof. reflexivity. Qed.
+
+Lemma join_snoc : forall sep l y, l <> [] -> join sep (l ++ [y]) = join sep l ++ sep ++ y.
+Proof.
+  induction l as [|x l IH]; intros y H; [contradiction|].
+  destruct l as [|x2 l]; [reflexivity|].
+  change (join sep ((x :: x2 :: l) ++ [y])) with (x ++ sep ++ join sep ((x2 :: l) ++ [y])).
+  rewrite IH by discriminate.
+  change (join sep (x :: x2 :: l)) with (x ++ sep ++ join sep (x2 :: l)).
+  rewrite <- !app_assoc. reflexivity.
+Qed.
+
+Lemma join_truthy : forall sep x l, truthy x = true -> truthy (join sep (x :: l)) = true.
+Proof. intros sep [|c x] l H; [discriminate|]. destruct l; reflexivity. Qed.
+
+(* assembling server and caller cookies *)
+Lemma header_assembly : forall (S : list str) (cc : option str),
+  (forall x, In x S -> truthy x = true) ->
+  (let cookie := join s_semi_sp (filter_none [join s_semi_sp S; opt_str cc]) in
+   if truthy cookie then Some cookie else None)
+  = match S ++ match cc with Some (c :: s) => [c :: s] | _ => [] end with
+    | [] => None
+    | parts => Some (join [59; 32] parts)
+    end.
+Proof.
+  intros S cc HS. destruct S as [|x S].
+  - destruct cc as [[|c s]|]; reflexivity.
+  - assert (Tx : truthy x = true) by (apply HS; left; reflexivity).
+    assert (Tj : truthy (join s_semi_sp (x :: S)) = true) by (apply join_truthy; exact Tx).
+    cbv zeta. unfold filter_none. cbn [filter]. rewrite Tj.
+    remember (join s_semi_sp (x :: S)) as J eqn:EJ.
+    destruct cc as [[|c s]|]; cbn [opt_str truthy filter].
+    + rewrite app_nil_r. cbn [join]. rewrite Tj. subst J. reflexivity.
+    + change (match (x :: S) ++ [c :: s] with [] => None | parts => Some (join [59; 32] parts) end)
+        with (Some (join s_semi_sp ((x :: S) ++ [c :: s]))).
+      rewrite join_snoc by discriminate. rewrite <- EJ.
+      change (join s_semi_sp [J; c :: s]) with (J ++ s_semi_sp ++ c :: s).
+      destruct J as [|a J]; [discriminate|]. reflexivity.
+    + rewrite app_nil_r. cbn [join]. rewrite Tj. subst J. reflexivity.
+Qed.
+
+(* ------------------------------------------------------------------------------------------ *)
+(* C20 *)
+
+(* Responses that name no Domain store nothing. *)
+Theorem C20_no_domain_stores_nothing : forall (j : jar) (ms : list morsel),
+  (forall m, In m ms -> snd m = None \/ snd m = Some []) -> jar_add j ms = j.
+Proof.
+  intros j ms. unfold jar_add. generalize ms at 2 as all. intros all.
+  revert j. induction ms as [|m ms IH]; intros j H; [reflexivity|].
+  simpl. assert (E : jar_add_one all j m = j).
+  { unfold jar_add_one. destruct (H m (or_introl eq_refl)) as [-> | ->]; reflexivity. }
+  rewrite E. apply IH. intros m' Hm'. apply H. right. exact Hm'.
+Qed.
+
+(* A cookie selected for a host was set, with that value, by a response of the history that
+   named a domain covering the host. *)
+Theorem C20_scope : forall (history : list (list morsel)) (host nm v : str),
+  In (nm, v) (jar_select (jar_of_history history) host) ->
+  exists response dm nm0 v0 d,
+    In response history /\ In (nm, v, dm) response /\
+    In (nm0, v0, Some d) response /\ d <> [] /\ covers d host = true.
+Proof.
+  intros h host nm v H.
+  apply (Permutation_in _ (select_perm h host)) in H. apply in_map_iff in H.
+  destruct H as [[[d n] w] [Heq Hs]]. unfold st_name, st_value in Heq. simpl in Heq.
+  inversion Heq; subst n w. clear Heq.
+  unfold sent in Hs. apply filter_In in Hs. destruct Hs as [Hl Hc]. simpl in Hc.
+  assert (Hst : In (d, nm, v) (stored_all h)).
+  { clear Hc. revert Hl. generalize (stored_all h). induction l as [|s r IH]; simpl; [tauto|].
+    destruct (existsb (same_slot s) r); simpl; intuition. }
+  unfold stored_all in Hst. apply in_flat_map in Hst. destruct Hst as [r [Hr Hin]].
+  unfold stored_by in Hin. apply in_flat_map in Hin. destruct Hin as [[[n0 v0] d0] [Hm Hin]].
+  unfold named_domain in Hin. simpl in Hin. destruct d0 as [[|c d0]|]; try contradiction.
+  apply in_map_iff in Hin. destruct Hin as [[[n1 v1] d1] [Heq Hm1]]. simpl in Heq.
+  inversion Heq; subst. exists r, d1, n0, v0, (c :: d0).
+  repeat split; try assumption. discriminate.
+Qed.
+
+(* ... hence nothing is sent to a host that no named domain covers. *)
+Corollary C20_never_outside : forall (history : list (list morsel)) (host : str),
+  (forall response nm v d, In response history -> In (nm, v, Some d) response -> covers d host = false) ->
+  jar_select (jar_of_history history) host = [] /\ jar_get (jar_of_history history) host = [].
+Proof.
+  intros h host H.
+  assert (E : jar_select (jar_of_history h) host = []).
+  { destruct (jar_select (jar_of_history h) host) as [|[nm v] l] eqn:E; [reflexivity|]. exfalso.
+    destruct (C20_scope h host nm v) as (r & dm & n0 & v0 & d & Hr & _ & Hd & _ & Hc).
+    - rewrite E. left. reflexivity.
+    - rewrite (H r n0 v0 d Hr Hd) in Hc. discriminate. }
+  split; [exact E|]. unfold jar_get. rewrite E. destruct host; reflexivity.
+Qed.
+
+(* The Cookie header is exactly the specification's, for every history, every non-empty host and
+   every caller cookie; no restriction on the alphabet is needed. *)
+Theorem C20_exact : forall (history : list (list morsel)) (host : str) (cc : option str),
+  host <> [] ->
+  cookie_header (jar_of_history history) host cc = spec_header history host cc.
+Proof.
+  intros h host cc Hh. unfold cookie_header, spec_header.
+  rewrite jar_get_select by exact Hh. rewrite sorted_sort_str.
+  assert (E : sort_str (map name_eq_value (sent h host))
+            = sort_str (map fmt_cookie (jar_select (jar_of_history h) host))).
+  { apply sort_str_perm_eq. apply Permutation_sym.
+    eapply Permutation_trans; [apply Permutation_map, select_perm|].
+    rewrite map_map. apply Permutation_refl. }
+  rewrite E. apply header_assembly. apply sorted_fmt_truthy.
+Qed.
+
+(* The corner excluded by [host <> []]: SimpleCookieJar.get returns "" for an empty host before
+   looking at the jar, while a Domain attribute "." (empty domain after the dot) "covers" the empty
+   host.  Unreachable through connect() (parse_url rejects an empty host name). *)
+Theorem C20_exact_empty_host_refuted :
+  exists history cc, cookie_header (jar_of_history history) [] cc <> spec_header history [] cc.
+Proof. exists [[([97], [49], Some [46])]], None. vm_compute. discriminate. Qed.
+
+(* The same name stored under two covering domains is sent twice (once per domain), possibly with
+   two different values: "latest value wins" holds per (domain, name) only. *)
+Theorem C20_latest_wins_is_per_domain :
+  exists history host,
+    cookie_header (jar_of_history history) host None
+    = Some [97; 61; 49; 59; 32; 97; 61; 50].     (* "a=1; a=2" *)
+Proof.
+  (* a=1; Domain=ex.com   then   a=2; Domain=sub.ex.com   then connect to sub.ex.com *)
+  exists [[([97], [49], Some [101;120;46;99;111;109])];
+          [([97], [50], Some [115;117;98;46;101;120;46;99;111;109])]],
+         [115;117;98;46;101;120;46;99;111;109].
+  vm_compute. reflexivity.
+Qed.
+
+(* read_headers: a second Set-Cookie line is appended after "; " *)
+Lemma merge_set_cookie_first : forall v, merge_set_cookie None v = strip v.
+Proof. reflexivity. Qed.
+Lemma merge_set_cookie_next : forall c e v,
+  merge_set_cookie (Some (c :: e)) v = (c :: e) ++ [59; 32] ++ strip v.
+Proof. reflexivity. Qed.
+
+(* ------------------------------------------------------------------------------------------ *)
+(* concrete histories *)
+From Coq Require Import String Ascii.
+
+Definition lit (x : string) : str := map (fun a => Z.of_N (N_of_ascii a)) (list_ascii_of_string x).
+Definition one (n v d : string) : list morsel := [(lit n, lit v, Some (lit d))].
+Definition hdr (h : list (list morsel)) (host : string) : option str :=
+  cookie_header (jar_of_history h) (lit host) None.
+Definition SomeS (x : string) : option str := Some (lit x).
+
+(* scope: the domain itself, a subdomain, and the look-alikes *)
+Example ex_inside      : hdr [one "a" "1" "example.com"] "example.com" = SomeS "a=1".
+Proof. vm_compute. reflexivity. Qed.
+Example ex_subdomain   : hdr [one "a" "1" "example.com"] "x.y.example.com" = SomeS "a=1".
+Proof. vm_compute. reflexivity. Qed.
+Example ex_lookalike_1 : hdr [one "a" "1" ".example.com"] "badexample.com" = None.
+Proof. vm_compute. reflexivity. Qed.
+Example ex_lookalike_2 : hdr [one "a" "1" ".example.com"] "example.com.evil" = None.
+Proof. vm_compute. reflexivity. Qed.
+Example ex_parent      : hdr [one "a" "1" "sub.example.com"] "example.com" = None.
+Proof. vm_compute. reflexivity. Qed.
+Example ex_other       : hdr [one "a" "1" "example.com"] "other.org" = None.
+Proof. vm_compute. reflexivity. Qed.
+(* case: upper-case Domain, upper-case host *)
+Example ex_upper_domain : hdr [one "a" "1" "EXAMPLE.Com"] "www.example.com" = SomeS "a=1".
+Proof. vm_compute. reflexivity. Qed.
+Example ex_upper_host   : hdr [one "a" "1" ".example.com"] "WWW.Example.COM" = SomeS "a=1".
+Proof. vm_compute. reflexivity. Qed.
+(* an upper-case Domain updates, not replaces, what the lower-case one stored *)
+Example ex_upper_merges :
+  hdr [one "a" "1" "example.com"; one "b" "2" "Example.COM"] "example.com" = SomeS "a=1; b=2".
+Proof. vm_compute. reflexivity. Qed.
+(* latest value wins, dotted and undotted domain are the same domain *)
+Example ex_latest :
+  hdr [one "a" "1" "example.com"; one "b" "1" "example.com"; one "a" "2" ".example.com"] "example.com"
+  = SomeS "a=2; b=1".
+Proof. vm_compute. reflexivity. Qed.
+(* no Domain: nothing stored *)
+Example ex_no_domain :
+  jar_of_history [[(lit "a", lit "1", None)]; [(lit "b", lit "2", Some [])]] = [].
+Proof. vm_compute. reflexivity. Qed.
+(* every cookie of a response goes under the one domain it names *)
+Example ex_all_morsels :
+  hdr [[(lit "b", lit "2", None); (lit "a", lit "1", Some (lit "example.com"))]] "example.com" = SomeS "a=1; b=2".
+Proof. vm_compute. reflexivity. Qed.
+(* sorted as name=value strings; caller cookie last *)
+Example ex_caller :
+  cookie_header (jar_of_history [one "ab" "1" "ex.com"; one "a" "2" "ex.com"]) (lit "ex.com") (SomeS "z=9")
+  = SomeS "a=2; ab=1; z=9".
+Proof. vm_compute. reflexivity. Qed.
+Example ex_caller_only :
+  cookie_header (jar_of_history [one "a" "1" "ex.com"]) (lit "other.org") (SomeS "z=9") = SomeS "z=9".
+Proof. vm_compute. reflexivity. Qed.
+(* the sorting caveat: names "a" and "a+" sort as strings "a+=1" < "a=1", not by name *)
+Example ex_sort_caveat :
+  hdr [[(lit "a", lit "1", Some (lit "ex.com")); (lit "a+", lit "1", None)]] "ex.com" = SomeS "a+=1; a=1".
+Proof. vm_compute. reflexivity. Qed.
+(* the examples agree with the specification *)
+Example ex_spec_latest :
+  spec_header [one "a" "1" "example.com"; one "b" "1" "example.com"; one "a" "2" ".example.com"]
+              (lit "example.com") None = SomeS "a=2; b=1".
+Proof. vm_compute. reflexivity. Qed.
+Example ex_spec_lookalike : spec_header [one "a" "1" ".example.com"] (lit "badexample.com") None = None.
+Proof. vm_compute. reflexivity. Qed.
+(* Set-Cookie merging *)
+Example ex_merge :
+  merge_set_cookie (Some (lit "a=1; Domain=ex.com")) (lit " b=2; Domain=other.org ")
+  = lit "a=1; Domain=ex.com; b=2; Domain=other.org".
+Proof. vm_compute. reflexivity. Qed.
+
+Print Assumptions C20_scope.
+Print Assumptions C20_never_outside.
+Print Assumptions C20_no_domain_stores_nothing.
+Print Assumptions C20_exact.
+Print Assumptions C20_exact_empty_host_refuted.
+Print Assumptions C20_latest_wins_is_per_domain.
+Print Assumptions select_perm.
